@@ -22,49 +22,68 @@ def quadMin (q : Poly) (a b : Rat) : Rat × Rat :=
     let u := if u < a then a else if b < u then b else u
     (horner q u, u)
 
+/-- run-time validated shape of a squared-distance polynomial of a linear piece: degree ≤ 2, convex -/
+def quadShapeOK (q : Poly) : Bool := decide (q.length ≤ 3) && decide (0 ≤ nth q 2)
+
+/-- candidates `(min value, minimiser)` of every piece -/
+def nearestCands (f : RF) (pt : Vec) : List (Rat × Rat) :=
+  f.map fun pc => quadMin (sqDistPoly pc pt) pc.a pc.b
+
+def minOf (d0 : Rat) (l : List (Rat × Rat)) : Rat := l.foldl (fun m c => rmin m c.1) d0
+
 /-- exact nearest-point oracle for a polynomial curve of degree 1: minimal squared distance and
 the parameters (one per span, duplicates merged) at which it is attained -/
 def polylineNearest (c : Curve) (pt : Vec) : Except Err (Rat × List Rat) := do
   if c.kv.deg != 1 || c.W.isSome then throw .other
   let f ← RF.ofCurve c
-  let cands := f.map fun pc => quadMin (sqDistPoly pc pt) pc.a pc.b
+  if !(f.all fun pc => quadShapeOK (sqDistPoly pc pt) && decide (pc.a ≤ pc.b)) then throw .other
+  let cands := nearestCands f pt
   match cands with
   | [] => throw .other
   | (d0, _) :: _ =>
-    let best := cands.foldl (fun m (d, _) => rmin m d) d0
-    return (best, isort (dedup ((cands.filter fun (d, _) => d == best).map (·.2))))
+    let best := minOf d0 cands
+    return (best, isort (dedup ((cands.filter fun c => c.1 == best).map (·.2))))
+
+/-- what one pair of segments contributes -/
+structure SegCross where
+  collinear : Bool               -- parallel and on one line (degenerate class)
+  sol : Option (Rat × Rat)       -- the unique meeting pair when the directions are independent and it lies in both ranges
+  touching : Bool                -- that pair lies on an end of a range
+deriving Repr
+
+/-- Cramer's rule on `ax0 + ax1 t = bx0 + bx1 u`, `ay0 + ay1 t = by0 + by1 u` -/
+def segCross (pa pb : Piece) : SegCross :=
+  let ax := pa.num.getD 0 []; let ay := pa.num.getD 1 []
+  let bx := pb.num.getD 0 []; let byy := pb.num.getD 1 []
+  let a11 := nth ax 1; let a12 := -(nth bx 1); let r1 := nth bx 0 - nth ax 0
+  let a21 := nth ay 1; let a22 := -(nth byy 1); let r2 := nth byy 0 - nth ay 0
+  let det := a11 * a22 - a12 * a21
+  if det == 0 then
+    ⟨(a11 * r2 - a21 * r1 == 0) && (a12 * r2 - a22 * r1 == 0), none, false⟩
+  else
+    let t := (r1 * a22 - a12 * r2) / det
+    let u := (a11 * r2 - a21 * r1) / det
+    if pa.a ≤ t ∧ t ≤ pa.b ∧ pb.a ≤ u ∧ u ≤ pb.b then
+      ⟨false, some (t, u), t == pa.a || t == pa.b || u == pb.a || u == pb.b⟩
+    else ⟨false, none, false⟩
+
+def dedupPairs : List (Rat × Rat) → List (Rat × Rat)
+  | [] => []
+  | x :: xs => x :: (dedupPairs xs).filter fun y => !(y.1 == x.1 && y.2 == x.2)
 
 structure Crossings where
-  degenerate : Bool          -- some pair of segments is parallel and overlapping (or a segment is a point)
+  degenerate : Bool          -- some pair of segments is parallel and collinear
   touching : Bool            -- some meeting point lies on an end of a segment
   pairs : List (Rat × Rat)
+
+def allSegCross (fa fb : RF) : List SegCross := fa.flatMap fun pa => fb.map fun pb => segCross pa pb
 
 /-- all meeting pairs `(t, u)` of two planar polynomial curves of degree 1 -/
 def polylineCrossings (a b : Curve) : Except Err Crossings := do
   if a.kv.deg != 1 || b.kv.deg != 1 || a.W.isSome || b.W.isSome then throw .other
   let fa ← RF.ofCurve a
   let fb ← RF.ofCurve b
-  let mut deg := false
-  let mut touch := false
-  let mut out : List (Rat × Rat) := []
-  for pa in fa do
-    for pb in fb do
-      let ax := pa.num.getD 0 []; let ay := pa.num.getD 1 []
-      let bx := pb.num.getD 0 []; let byy := pb.num.getD 1 []
-      -- ax0 + ax1 t = bx0 + bx1 u ; ay0 + ay1 t = by0 + by1 u
-      let a11 := nth ax 1; let a12 := -(nth bx 1); let r1 := nth bx 0 - nth ax 0
-      let a21 := nth ay 1; let a22 := -(nth byy 1); let r2 := nth byy 0 - nth ay 0
-      let det := a11 * a22 - a12 * a21
-      if det == 0 then
-        -- parallel: degenerate when the lines coincide and the parameter ranges overlap, or a segment is a point
-        let coll := (a11 * r2 - a21 * r1 == 0) && (a12 * r2 - a22 * r1 == 0)
-        if coll then deg := true
-      else
-        let t := (r1 * a22 - a12 * r2) / det
-        let u := (a11 * r2 - a21 * r1) / det
-        if pa.a ≤ t ∧ t ≤ pa.b ∧ pb.a ≤ u ∧ u ≤ pb.b then
-          if t == pa.a || t == pa.b || u == pb.a || u == pb.b then touch := true
-          if !(out.any fun (t', u') => t' == t && u' == u) then out := out ++ [(t, u)]
-  return ⟨deg, touch, out⟩
+  let all := allSegCross fa fb
+  return ⟨all.any (·.collinear), all.any (·.touching), dedupPairs (all.filterMap (·.sol))⟩
 
 end NV
